@@ -1,12 +1,74 @@
 """C01: adaptive combination scheme = inclusion-exclusion scheme. Correspondence model <-> combiScheme.py."""
+import fcntl
+import hashlib
 import itertools
+import os
 import random
+import re
+import subprocess
+import sys
 from .. import sx
+from ..core import ROOT, COQ, sh
 from ..impl import run_impl
 from ..model import run_model
 
 ASSUMPTIONS = ['Python sets modelled as duplicate-free lists; observables compared as sorted sets',
-               'closed-form coefficients are floats in Python (factorial quotient), compared as exact rationals']
+               'closed-form coefficients are floats in Python (factorial quotient), compared as exact rationals',
+               'source-derived model: Python `ast`, the translation scheme of harness/translate/py2gallina.py and the semantics '
+               'library coq/Base/PyLib.v (ints = Z, lists/tuples = list, sets/dicts = duplicate-free association lists, loops '
+               '= early-exit folds, exceptions = no result) are trusted; numpy dtype coercions and float rounding of the '
+               'closed-form coefficient are not modelled']
+
+TRANSLATOR = os.path.join(ROOT, 'harness', 'translate', 'py2gallina.py')
+GEN_V = os.path.join(COQ, 'Gen', 'CombiSchemeGen.v')
+
+
+def run_translator(chk):
+    """Regenerates coq/Gen/CombiSchemeGen.v from the working tree ($VERIF_REPO) under the build lock."""
+    with open(os.path.join(ROOT, '.buildlock'), 'w') as lk:
+        fcntl.flock(lk, fcntl.LOCK_EX)
+        p = subprocess.run([sys.executable, TRANSLATOR], capture_output=True, text=True)
+    msg = '\n'.join(l for l in p.stderr.splitlines() if 'conda' not in l).strip()
+    chk.checker_cmds.append('/venv/bin/python harness/translate/py2gallina.py  (regenerates coq/Gen/CombiSchemeGen.v from the source)')
+    info = dict(rc=p.returncode, message=msg)
+    try:
+        src = open(GEN_V).read()
+        info['generated_sha256'] = hashlib.sha256(src.encode()).hexdigest()
+        info['translated'] = re.findall(r'^\(\* (\S+:\d+-\d+)  (\S+) \*\)$', src, re.M)
+    except OSError:
+        pass
+    chk.extra['source_derived_model'] = info
+    return info
+
+
+def gen_diagnosis(chk, tinfo):
+    """None when the generated model and its equivalence proofs are in place; otherwise a message naming the rejected
+    construct / the file that does not compile / the equivalence theorem that no longer holds."""
+    if tinfo['rc'] != 0:
+        return 'translator rejected the source: ' + tinfo['message']
+    def uptodate(f):
+        return sh('make -f Makefile.coq -q %s.vo' % f[:-2], cwd=COQ)[0] == 0
+    if uptodate('Proofs/GenCombiSchemeEq.v'):
+        return None
+    os.makedirs(chk.work, exist_ok=True)
+    for f in ('Gen/CombiSchemeGen.v', 'Proofs/PyLibFacts.v', 'Proofs/GenCombiSchemeEq.v'):
+        if uptodate(f):
+            continue
+        rc, out = sh('timeout 900 coqc -Q . SG -o %s %s' % (os.path.join(chk.work, os.path.basename(f) + 'o'), f), cwd=COQ)
+        out = '\n'.join(l for l in out.splitlines() if 'conda' not in l)
+        if rc == 0:
+            continue      # compiles on its own (e.g. regenerated meanwhile); the problem is further down the chain
+        m = re.search(r'line (\d+)', out)
+        thm = None
+        if m:
+            for i, ln in enumerate(open(os.path.join(COQ, f)).read().splitlines()[:int(m.group(1))]):
+                mm = re.match(r'\s*(?:Theorem|Lemma|Corollary|Definition|Fixpoint)\s+(\w+)', ln)
+                if mm:
+                    thm = mm.group(1)
+        if f.startswith('Gen/'):
+            return 'generated model %s does not type-check (in %s): %s' % (f, thm, out[-1200:])
+        return 'the source-derived model changed its meaning: %s of %s no longer holds: %s' % (thm, f, out[-1200:])
+    return 'Proofs/GenCombiSchemeEq.vo is not up to date (build problem): see setup notes'
 
 
 def gen_case(rng, tier):
@@ -114,7 +176,10 @@ def oracle_state(dim, lmin, st):
 
 
 def run(chk):
+    tinfo = run_translator(chk)       # BEFORE the obligations: the theorems are re-checked against the source as it is now
     chk.coq_obligations()
+    gen_problem = gen_diagnosis(chk, tinfo)
+    chk.extra['source_derived_model']['status'] = gen_problem or 'generated, equivalent to the hand-written model (C01_gen_* proved)'
     n = chk.n(400, 20000)
     cases = [gen_case(chk.rng, chk.tier) for _ in range(n)]
     # corpus: fixed regression cases first
@@ -192,6 +257,11 @@ def run(chk):
         if len(samples) < 3 and refin >= 2:
             samples.append(dict(dim=c['dim'], lmin=c['lmin'], lmax=c['lmax'], ops=r['ops'],
                                 final_scheme=str(r['states'][-1][4])))
+    if gen_problem and not any(v['failing_input'] for v in chk.violations):
+        # broken proof obligation of the source-derived model; the correspondence and the oracle above found no input on
+        # which the implementation violates the property
+        chk.violation('theorem:gen-equivalence', 'translator-or-equivalence-broken',
+                      {'stage': 'translator' if tinfo['rc'] != 0 else 'coq'}, None, gen_problem, failing_input=False)
     chk.record_cases(len(cases), keys,
                      'random histories on CombiScheme (d 1..6, lmin 0..3, span 0..4, <=12 update requests incl. old/'
                      'neighbour/random/wrong-length vectors); non-trivial = d>=2 and at least one request actually refined; '
